@@ -5,5 +5,6 @@ import "verifharness/kv"
 func init() {
 	commands["kvreplay"] = func(a []string) int { return kv.CmdReplay(a, seed()) }
 	commands["kvtiter"] = func(a []string) int { return kv.CmdTableIter(a, seed()) }
+	commands["kvconfirm"] = func(a []string) int { return kv.CmdConfirm(a) }
 	commands["kviter"] = func(a []string) int { return kv.CmdIterHold(a, seed()) }
 }
